@@ -332,6 +332,7 @@ func c13Rest(c *Ctx) {
 	batchHasNextFromLast(c)
 	hasNextAbsentIsFalse(c)
 	deferredCounterCompared(c)
+	layoutAgreement(c)
 	fieldSetAgreement(c)
 }
 
